@@ -289,16 +289,16 @@ def never_none(v):
 def _lit_state(v):
     """('const', value) / ('empty',) / ('notnone',) for a right-hand side whose value is known, else None"""
     if loc_suffix(v) in NONNULL:
-        return ('notnone',)
+        return ('notnone', 'seen')
     if isinstance(v, ast.Constant) and isinstance(v.value, (bool, int, str, type(None))):
-        return ('const', v.value)
+        return ('const', v.value, 'fresh')
     if isinstance(v, (ast.List, ast.Tuple, ast.Set)) and not v.elts:
-        return ('empty',)
+        return ('empty', 'fresh')
     if isinstance(v, ast.Dict) and not v.keys:
-        return ('empty',)
+        return ('empty', 'fresh')
     if isinstance(v, ast.Call) and isinstance(v.func, ast.Name) and v.func.id in _EMPTY_CTORS and not v.args \
             and not v.keywords:
-        return ('empty',)
+        return ('empty', 'fresh')
     return None
 
 
@@ -366,9 +366,16 @@ def _stmt_summary(n, is_with):
     if k in _STMT_SUMMARY:
         return _STMT_SUMMARY[k]
     touches, escapes, itemstores = [], [], []
+    opaque = False
     roots = [it.context_expr for it in n.items] if is_with else [n]
     for root in roots:
         for x in ast.walk(root):
+            if isinstance(x, (ast.Yield, ast.YieldFrom, ast.Await)):
+                opaque = True
+            elif isinstance(x, ast.Call) and not _harmless_call(x) and not (
+                    isinstance(x.func, ast.Attribute) and isinstance(x.func.value, ast.Name) and (
+                        x.func.attr in _GROW or x.func.attr in _MAYGROW or x.func.attr in _SHRINK)):
+                opaque = True
             if isinstance(x, ast.Call) and isinstance(x.func, ast.Attribute) and isinstance(
                     x.func.value, ast.Name) and (x.func.attr in _GROW or x.func.attr in _MAYGROW or x.func.attr in _SHRINK):
                 touches.append((x.func.value.id, x.func.attr))
@@ -379,7 +386,7 @@ def _stmt_summary(n, is_with):
             elif isinstance(x, (ast.Subscript, ast.Attribute)) and isinstance(x.ctx, (ast.Store, ast.Del)) \
                     and isinstance(x.value, ast.Name):
                 itemstores.append(x.value.id)
-    _STMT_SUMMARY[k] = (touches, escapes, itemstores)
+    _STMT_SUMMARY[k] = (touches, escapes, itemstores, opaque)
     return _STMT_SUMMARY[k]
 
 
@@ -407,11 +414,55 @@ def _loop_summary(n):
     return _LOOP_SUMMARY[k]
 
 
+def _learn(test, pol, env, fid):
+    """state of a local implied by the outcome of a test on it (only when nothing is known yet)"""
+    if isinstance(test, ast.UnaryOp) and isinstance(test.op, ast.Not):
+        return _learn(test.operand, not pol, env, fid)
+    if isinstance(test, ast.Name):
+        if (fid, test.id) not in env:
+            env[(fid, test.id)] = ('nonempty' if pol else 'empty', 'seen')
+        return
+    if isinstance(test, ast.Compare) and len(test.ops) == 1:
+        l, r, op = test.left, test.comparators[0], type(test.ops[0])
+        for a, b, flip in ((l, r, False), (r, l, True)):
+            if isinstance(a, ast.Call) and isinstance(a.func, ast.Name) and a.func.id == 'len' and len(a.args) == 1 \
+                    and isinstance(a.args[0], ast.Name) and isinstance(b, ast.Constant) and isinstance(b.value, int) \
+                    and not isinstance(b.value, bool):
+                key = (fid, a.args[0].id)
+                if key in env:
+                    return
+                o = {ast.Lt: ast.Gt, ast.Gt: ast.Lt, ast.LtE: ast.GtE, ast.GtE: ast.LtE}.get(op, op) if flip else op
+                n = b.value
+                # which of  len == 0 / len >= 1  the outcome implies
+                empty = None
+                if (o, n) in ((ast.Eq, 0), (ast.LtE, 0), (ast.Lt, 1)):
+                    empty = pol
+                elif (o, n) in ((ast.NotEq, 0), (ast.Gt, 0), (ast.GtE, 1)):
+                    empty = not pol
+                if empty is not None:
+                    env[key] = ('empty' if empty else 'nonempty', 'seen')
+                return
+
+
 def locally_feasible(events):
-    """False when a test contradicts the literal value (constant / fresh empty container) a
-    local holds on this path.  Locals assigned inside a loop are forgotten at the loop head
-    (a path stands for any iteration)."""
+    """False when a test contradicts what is known about a local on this path: a constant, a
+    fresh empty container, a container that has been appended to, or the outcome of an
+    earlier test of the same local.  Locals assigned inside a loop are forgotten at the loop
+    head (a path stands for any iteration); what was only observed (not created here) is
+    forgotten at every call and yield, where other code may change the object."""
     env = {}
+    groups = {}          # key -> set of keys naming the same object
+
+    def forget_name(key):
+        env.pop(key, None)
+        g = groups.pop(key, None)
+        if g is not None:
+            g.discard(key)
+
+    def forget_obj(key):
+        for k in list(groups.get(key, (key,))):
+            env.pop(k, None)
+
     for e in events:
         fid = id(e.frame)
         n = e.node
@@ -419,79 +470,113 @@ def locally_feasible(events):
             if env:
                 stores, grow, shrink, escapes = _loop_summary(n)
                 for (f_, nm) in list(env):
-                    if f_ != fid:
+                    if f_ != fid or (f_, nm) not in env:
                         continue
                     st = env[(f_, nm)]
-                    if nm in stores or (nm in escapes and st[0] in ('empty', 'nonempty')) or \
+                    if nm in stores:
+                        forget_name((f_, nm))
+                    elif (nm in escapes and st[0] in ('empty', 'nonempty')) or \
                             (st[0] == 'empty' and nm in grow) or (st[0] == 'nonempty' and nm in shrink):
-                        del env[(f_, nm)]
+                        forget_obj((f_, nm))
+                # anything merely observed may be changed by the calls of the loop body
+                for k in [k for k, st in env.items() if len(st) > 1 and st[-1] == 'seen']:
+                    env.pop(k, None)
             continue
+        if e.kind not in ('stmt', 'test') or n is None:
+            continue
+        touches, escapes, itemstores, opaque = _stmt_summary(n, e.extra == 'with')
+        if opaque and env:
+            for k in [k for k, st in env.items() if len(st) > 1 and st[-1] == 'seen']:
+                env.pop(k, None)
         if e.kind == 'test':
             v = _truth(n, env, fid)
             if v is not None and v != bool(e.pol):
                 return False
-        if e.kind not in ('stmt', 'test') or n is None:
-            continue
-        touches, escapes, itemstores = _stmt_summary(n, e.extra == 'with')
         for nm, attr in touches:
-            _touch(env, (fid, nm), attr)
+            key = (fid, nm)
+            st = env.get(key)
+            if attr in _GROW:
+                origin = st[-1] if st is not None and len(st) > 1 and st[0] in ('empty', 'nonempty') else 'seen'
+                for k in list(groups.get(key, (key,))):
+                    env[k] = ('nonempty', origin)
+            elif attr in _MAYGROW:
+                if st is not None and st[0] == 'empty':
+                    forget_obj(key)
+            elif attr in _SHRINK:
+                if st is not None and st[0] == 'nonempty':
+                    forget_obj(key)
         if env:
             for nm in escapes:
                 st = env.get((fid, nm))
                 if st is not None and st[0] in ('empty', 'nonempty'):
-                    env.pop((fid, nm), None)
+                    forget_obj((fid, nm))
             for nm in itemstores:
-                env.pop((fid, nm), None)
-        if e.kind == 'stmt' and e.extra != 'with':
-            if isinstance(n, ast.Assign):
-                st = _lit_state(n.value) if len(n.targets) == 1 and isinstance(n.targets[0], ast.Name) else None
-                for t in n.targets:
-                    for x in ast.walk(t):
-                        if isinstance(x, ast.Name) and isinstance(x.ctx, ast.Store):
-                            env.pop((fid, x.id), None)
-                # the value may alias a tracked empty container: xs = ys
-                def escaping(v):
-                    if isinstance(v, ast.Name):
-                        yield v
-                    elif isinstance(v, (ast.Tuple, ast.List, ast.Set)):
-                        for y in v.elts:
-                            yield from escaping(y)
-                    elif isinstance(v, ast.Dict):
-                        for y in v.values:
-                            yield from escaping(y)
-                    elif isinstance(v, ast.IfExp):
-                        yield from escaping(v.body)
-                        yield from escaping(v.orelse)
-                    elif isinstance(v, ast.BoolOp):
-                        for y in v.values:
-                            yield from escaping(y)
-                    elif isinstance(v, ast.Starred):
-                        yield from escaping(v.value)
-                for x in escaping(n.value):
-                    if env.get((fid, x.id), ('',))[0] in ('empty', 'nonempty'):
-                        env.pop((fid, x.id), None)
-                if st is not None:
-                    env[(fid, n.targets[0].id)] = st
-            elif isinstance(n, (ast.AugAssign, ast.AnnAssign)):
-                if isinstance(n.target, ast.Name):
-                    env.pop((fid, n.target.id), None)
-            elif isinstance(n, ast.Delete):
-                for t in n.targets:
-                    if isinstance(t, ast.Name):
-                        env.pop((fid, t.id), None)
-            elif isinstance(n, (ast.Return, ast.Expr)):
-                v = n.value
-                for x in ast.walk(v) if v is not None else []:
-                    if isinstance(x, (ast.Yield, ast.YieldFrom)):
-                        # other processes run: nothing local changes, keep env
-                        break
-        if e.kind == 'stmt' and e.extra == 'with':
+                forget_obj((fid, nm))
+        if e.kind == 'test':
+            _learn(n, bool(e.pol), env, fid)
+            continue
+        if e.extra == 'with':
             for it in n.items:
                 if it.optional_vars is not None:
                     for x in ast.walk(it.optional_vars):
                         if isinstance(x, ast.Name):
-                            env.pop((fid, x.id), None)
+                            forget_name((fid, x.id))
+            continue
+        if isinstance(n, ast.Assign):
+            single = len(n.targets) == 1 and isinstance(n.targets[0], ast.Name)
+            st = _lit_state(n.value) if single else None
+            src = None
+            if single and isinstance(n.value, ast.Name) and n.value.id != n.targets[0].id:
+                src = (fid, n.value.id)
+            src_state = env.get(src) if src is not None else None
+            for t in n.targets:
+                for x in ast.walk(t):
+                    if isinstance(x, ast.Name) and isinstance(x.ctx, ast.Store):
+                        forget_name((fid, x.id))
+            if src is not None:
+                # y = x : two names for one object
+                key = (fid, n.targets[0].id)
+                g = groups.get(src)
+                if g is None:
+                    g = groups[src] = {src}
+                g.add(key)
+                groups[key] = g
+                if src_state is not None:
+                    env[key] = src_state
+            else:
+                for x in _escaping(n.value):
+                    if env.get((fid, x.id), ('',))[0] in ('empty', 'nonempty'):
+                        forget_obj((fid, x.id))
+                if st is not None:
+                    env[(fid, n.targets[0].id)] = st
+        elif isinstance(n, (ast.AugAssign, ast.AnnAssign)):
+            if isinstance(n.target, ast.Name):
+                forget_name((fid, n.target.id))
+        elif isinstance(n, ast.Delete):
+            for t in n.targets:
+                if isinstance(t, ast.Name):
+                    forget_name((fid, t.id))
     return True
+
+
+def _escaping(v):
+    """names whose object becomes reachable from the value built by expression v"""
+    if isinstance(v, ast.Name):
+        yield v
+    elif isinstance(v, (ast.Tuple, ast.List, ast.Set)):
+        for y in v.elts:
+            yield from _escaping(y)
+    elif isinstance(v, ast.Dict):
+        for y in v.values:
+            yield from _escaping(y)
+    elif isinstance(v, ast.IfExp):
+        yield from _escaping(v.body)
+        yield from _escaping(v.orelse)
+    elif isinstance(v, ast.BoolOp):
+        for y in v.values:
+            yield from _escaping(y)
+    elif isinstance(v, ast.Starred):
+        yield from _escaping(v.value)
 
 
 def function_paths(func, frame=None):
